@@ -34,6 +34,9 @@ def call(I, fn, args, kwargs):
             return fn(*[a if not (is_sym(a) or isinstance(a, SObj)) else "<sym>" for a in args])
         if I.is_repo_cls(fn):
             return construct(I, fn, args, kwargs)
+    if isinstance(fn, types.MethodType) and type(fn.__self__).__module__.startswith("pycountry") \
+            and fn.__func__ is getattr(type(fn.__self__), "get", None):
+        return m_countries_get(I, *args, **kwargs)
     if isinstance(fn, (types.BuiltinMethodType, types.MethodWrapperType)) and \
             isinstance(getattr(fn, "__self__", None), (dict, list, tuple, set, frozenset)):
         return container_method(I, fn, args, kwargs)
@@ -172,7 +175,17 @@ def rxmethod(I, pat, name, args, kwargs):
             r = concretize(SBool(f))
             return (MatchTruth() if r else None) if isinstance(r, bool) else SBoolMatch(r.t)
         else:
-            raise Unsupported("fullmatch on a string of unknown length")
+            nodes = rx.parse(pat)
+            w = rx._max_width([x for x in nodes if x[0] is not rx.C.AT])
+            if w is None:
+                raise Unsupported("fullmatch of an unbounded pattern on a string of unknown length")
+            # a full match needs len <= w (+1 for a trailing newline under $): enumerate those lengths
+            for n in range(w + 2):
+                if I.branch(SBool(s.len == n)):
+                    f = rx.match_formula(pat, I.vector_of(s, n).chars, "fullmatch")
+                    r = concretize(SBool(f))
+                    return (MatchTruth() if r else None) if isinstance(r, bool) else SBoolMatch(r.t)
+            return None
     s = lift_str(s)
     f = rx.match_formula(pat, s.chars, name)
     r = concretize(SBool(f))
@@ -182,7 +195,42 @@ def rxmethod(I, pat, name, args, kwargs):
 
 
 class SBoolMatch(SBool):
-    """symbolic 'match object or None': only truthiness / `is None` are meaningful"""
+    """symbolic 'some object or None': only truthiness / `is None` are meaningful"""
+
+
+_ISO = []
+
+
+def iso_codes():
+    """assumed contract of pycountry: countries.get(alpha_2=x) is non-None exactly for the alpha-2 codes the
+    database lists (probed on all 676 two-letter codes by the C04 check)"""
+    if not _ISO:
+        import pycountry
+        _ISO.extend(sorted(c.alpha_2 for c in pycountry.countries))
+    return _ISO
+
+
+def m_countries_get(I, *args, **kwargs):
+    import pycountry
+    if args or set(kwargs) != {"alpha_2"}:
+        raise Unsupported("pycountry.countries.get with other than alpha_2=")
+    v = payload(kwargs["alpha_2"])
+    if isinstance(v, str):
+        return pycountry.countries.get(alpha_2=v)
+    if isinstance(v, SFn):
+        n = I.pin_length(v)
+        if n is None:
+            raise Unsupported("countries.get on a string of unpinned length")
+        v = I.vector_of(v, n)
+    s = lift_str(v)
+    if len(s) != 2:
+        return None
+    c0, c1 = s.chars
+    # the assumed contract is stated (and probed) for two ASCII upper-case letters only: pycountry folds case, so
+    # e.g. KELVIN SIGN + 'R' would be found as "kr"; the caller has to prove it never asks outside [A-Z]{2}
+    I.oblige("pycountry.countries.get.requires(alpha_2 in [A-Z]{2})",
+             z3.And(c0 >= 65, c0 <= 90, c1 >= 65, c1 <= 90))
+    return SBoolMatch(z3.Or(*[z3.And(c0 == ord(k[0]), c1 == ord(k[1])) for k in iso_codes()]))
 
 
 def m_re_match(I, pattern, string, flags=0):
